@@ -425,7 +425,9 @@ def check_case(case):
                     continue
                 cnt["values_compared"] += 1
                 w = ref[cell]
-                exact = isinstance(w, float) and w == w and abs(w) != math.inf and w == int(w) and abs(w) <= 2**53
+                # an integral result must be met exactly when it comes from ONE operation (table); in a tree a folded
+                # non-integral intermediate (100 / 3 -> 33.33333333333334, 16 digits as C09 allows) can leave 7e-15
+                exact = case.get("stream") == "table" and isinstance(w, float) and w == w and abs(w) != math.inf and w == int(w) and abs(w) <= 2**53
                 # single operations (table) are compared tightly; in random trees a 16-digit literal feeding a
                 # cancelling operation (mod, subtraction) legitimately amplifies the printing error
                 ok = (v == w) if exact else close(v, w, 1e-14 if case.get("stream") == "table" else 1e-9)
